@@ -246,17 +246,20 @@ Example big_preserved :
   | None => []
   end = repeat true 5.
 Proof. vm_compute. reflexivity. Qed.
+(* the output under Crate; it is the output of the rustfmt binary on the corresponding source
+   (the emptied  use a::{k::{}};  prints nothing) *)
 Example big_crate :
   fmt CRATE big =
-  Some [(Some 0%N, None, "::ext::r#try");
-        (Some 2%N, None, "a::i");
+  Some [(Some 0%N, None, "");
+        (Some 0%N, None, "self::m::n");
+        (Some 0%N, None, "super::*");
+        (Some 1%N, None, "crate::x::{self, y as z}");
+        (Some 0%N, None, "::ext::r#try");
+        (Some 2%N, None, "a::j");
         (Some 0%N, None, "a::{b::{c::{d::{e, f}, g}, h}, i}");
         (Some 0%N, None, "core::mem");
-        (Some 1%N, None, "crate::x::{self, y as z}");
-        (Some 0%N, None, "self::m::n");
         (Some 0%N, Some 7%N, "std::os::unix");
-        (Some 0%N, None, "std::{fmt::{self, Display, Write as _}, io::{self as sio, prelude::*, Read}}");
-        (Some 0%N, None, "super::*")].
+        (Some 0%N, None, "std::{fmt::{self, Display, Write as _}, io::{self as sio, prelude::*, Read}}")].
 Proof. vm_compute. reflexivity. Qed.
 
 (* merge_den / merge_leaves: operands meeting good, no clash, same class *)
